@@ -282,6 +282,12 @@ def run_check(prop, tier, seed, extra=None):
         wall_s=round(wall, 2),
         violations=len(violations),
     )
+    if obligations == 0:
+        # no theorem registered (yet) for this property: the schema's proof keys must not claim any; the
+        # exploration-style counts are what this run can honestly report
+        for k in ('obligations', 'discharged'):
+            ev['coverage'].pop(k)
+        ev['coverage']['notes'].append('no theorem is registered for this property yet: this run is differential validation only')
     os.makedirs(EVID, exist_ok=True)
     with open(os.path.join(EVID, '%s.json' % prop), 'w') as f:
         json.dump(ev, f, indent=1, default=repr)
